@@ -40,9 +40,11 @@ def is_detritus(subp):
 def iter_deletables(tree, unknown=False, ignored=False, detritus=False):
     """Iterate through files that may be deleted."""
     for subp in tree.extras():
-        if controldir.is_control_filename(os.path.basename(subp)):
+        if any(controldir.is_control_filename(name) for name in subp.split("/")):
             # never offer the control directory of another version control
-            # system sharing this working directory (e.g. .git) for deletion
+            # system sharing this working directory (e.g. .git), or anything
+            # inside one (git trees list the files below a nested .bzr one by
+            # one), for deletion
             continue
         if detritus and is_detritus(subp):
             yield tree.abspath(subp), subp
